@@ -107,8 +107,15 @@ def run_mips(case):
     ta = add_code_block(bi, bytes.fromhex("03e00008") + nop)
     tb = add_code_block(bi, bytes.fromhex("03e00008") + nop)
     A.referent, B.referent = ta, tb
+    if case.get("b_extern"):
+        # internal -> external: the MIPS32 ABI defines no attribute
+        # conversion, operands keep the attributes they have (none)
+        tb = gtirb.ProxyBlock()
+        m.proxies.add(tb)
+        B.referent = tb
+        ctr["mips_internal_to_external"] = 1
     ET = gtirb.Edge.Type
-    seq = [b for b, _, _ in blocks] + [ta, tb]
+    seq = [b for b, _, _ in blocks] + [ta]
     for k, (blk, what, off) in enumerate(blocks):
         ir.cfg.add(gtirb.Edge(blk, ta, gtirb.Edge.Label(
             type=ET.Call if what == "call" else ET.Branch,
@@ -117,6 +124,8 @@ def run_mips(case):
             ir.cfg.add(gtirb.Edge(blk, seq[k + 1], gtirb.Edge.Label(
                 type=ET.Fallthrough)))
     for t in (ta, tb):
+        if isinstance(t, gtirb.ProxyBlock):
+            continue
         px = gtirb.ProxyBlock()
         m.proxies.add(px)
         ir.cfg.add(gtirb.Edge(t, px, gtirb.Edge.Label(type=ET.Return)))
@@ -135,6 +144,10 @@ def run_mips(case):
         if e is None or e.symbol is not B:
             viol.append({"key": "retarget:retargeted-use-wrong-symbol:cf",
                          "msg": f"mips {what}: {e}"})
+        elif set(e.attributes) or e.offset != 0:
+            viol.append({"key": "retarget:retargeted-use-attributes:mips:"
+                                "no-conversion-rule",
+                         "msg": f"mips {what}: {e}"})
         tgts = [x.target for x in blk.outgoing_edges
                 if x.label.type in (ET.Branch, ET.Call)]
         ctr["edges_compared"] += 1
@@ -150,7 +163,8 @@ def gen_case(rng, tier, index):
     if index % 40 == 39:
         return {"w": "mips", "blocks": [
             [rng.choice(sorted(MIPS_XFER)), rng.randrange(0, 3)]
-            for _ in range(rng.randrange(1, 4))]}
+            for _ in range(rng.randrange(1, 4))],
+            "b_extern": index % 80 == 79}
     g = gen_rewrite.Gen(rng, tier, sym_indirect=True)
     case = g.module()
     case["edits"] = []
